@@ -1,7 +1,7 @@
 (* Property C02 — only objects the parent controls are ever modified or deleted.
    Statements about every request Model/Composite.v sync can issue, whatever the
    API server and the hook answer (safe = for every answer function). *)
-From MC Require Import Generated Model.Composite Model.TracePreds Model.Safe Proofs.SafeLemmas Proofs.C02Proofs.
+From MC Require Import Generated Model.Composite Model.TracePreds Model.Safe Proofs.SafeLemmas Proofs.C02Proofs Proofs.C02SSA.
 
 Theorem C02_calls_partial :
   forall (c : ccfg) (k : cache) (parent : json),
@@ -67,3 +67,55 @@ Theorem C02_run_soundness :
 Proof. exact (@safe_run). Qed.
 Print Assumptions C02_run_soundness.
 
+(* ---- both apply strategies (server-side apply included): no `ssa c = false` hypothesis ---- *)
+Theorem C02_calls_any_strategy :
+  forall (c : ccfg) (k : cache) (parent : json),
+         k_parent k = Some parent -> cfg_wf c = true -> cache_wf c k = true ->
+         get_uid parent <> "" -> cache_names_ok c k = true ->
+         safe sane_names (fun (_ : hist) (cl : call) => C02_call_ok c k parent cl = true) [] (sync c k).
+Proof. exact (@C02_calls_any_strategy). Qed.
+Print Assumptions C02_calls_any_strategy.
+
+Theorem C02_calls_any_strategy_partial :
+  forall (c : ccfg) (k : cache) (parent : json),
+         k_parent k = Some parent -> cfg_wf c = true -> cache_wf c k = true ->
+         get_uid parent <> "" -> cache_names_ok c k = true ->
+         safe sane_names_meta (fun (_ : hist) (cl : call) => C02_call_ok c k parent cl = true) [] (sync c k).
+Proof. exact (@C02_calls_any_strategy_partial). Qed.
+Print Assumptions C02_calls_any_strategy_partial.
+
+Theorem C02_strict_any_strategy :
+  forall (c : ccfg) (k : cache) (parent : json),
+         k_parent k = Some parent -> cfg_wf c = true -> cache_wf c k = true ->
+         get_uid parent <> "" -> cache_names_ok c k = true ->
+         safe sane_names (fun (_ : hist) (cl : call) => call_strict c k parent cl = true) [] (sync c k).
+Proof. exact (@C02_strict_any_strategy). Qed.
+Print Assumptions C02_strict_any_strategy.
+
+Theorem C02_apply_owned :
+  forall (c : ccfg) (k : cache) (parent : json) (q : req),
+         C02_call_ok_esc c k parent (CApi q) = true -> q_verb q = VPatchApply ->
+         targets_parent c parent q = false ->
+         has_controller_ref_of (q_body q) (get_uid parent) = true \/ metadata_is_obj (q_body q) = false.
+Proof. exact (@C02_apply_owned). Qed.
+Print Assumptions C02_apply_owned.
+
+Theorem C02_patch_guarded :
+  forall (c : ccfg) (k : cache) (parent : json) (q : req),
+         C02_call_ok c k parent (CApi q) = true -> q_verb q = VPatchJson ->
+         targets_parent c parent q = false ->
+         exists o : json, find_cached c k q = Some o /\ controlled_by o (get_uid parent) || is_orphan o = true.
+Proof. exact (@C02_patch_guarded). Qed.
+Print Assumptions C02_patch_guarded.
+
+Example C02_any_strategy_hyps_sat :
+  k_parent SSAExample.k0 = Some SSAExample.parent /\ cfg_wf SSAExample.cfg = true /\
+  cache_wf SSAExample.cfg SSAExample.k0 = true /\ get_uid SSAExample.parent <> "" /\
+  cache_names_ok SSAExample.cfg SSAExample.k0 = true /\ ssa SSAExample.cfg = true /\
+  (forall (h : list (call * answer)) (cl : call), sane_names_meta cl (SSAExample.e0 h cl)).
+Proof. exact C02_any_strategy_hyps_sat. Qed.
+
+Example C02_any_strategy_run_verbs :
+  SSAExample.verbs_of SSAExample.the_calls =
+  [VGet; VGet; VUpdate; VDelete; VPatchJson; VPatchApply; VPatchApply; VPatchApply; VGet; VUpdateStatus]%list.
+Proof. vm_compute. reflexivity. Qed.
